@@ -1569,10 +1569,10 @@ class ppc_dcb(ppc_crand, ppc_mn):
 
 class ppc_eciw(ppc_crand, ppc_mn):
     mask_list = [bm_int011111, bm_rt, bm_ra, bm_rb, bm_opc10, bm_int0]
-    namestr = ['ECIW', 'ECOW', 'LBZUX', 'LBZX', 'LHAUX', 'LHAX', 'LHBR', 'LHZUX', 'LHZUX', 'LHZX',
+    namestr = ['ECIW', 'ECOW', 'LBZUX', 'LBZX', 'LHAUX', 'LHAX', 'LHBRX', 'LHZUX', 'LHZUX', 'LHZX',
                'LSWX', 'STSWX', 'LWARX', 'LWBRX', 'STWBRX', 'LWZX', 'LWZUX', 'STWUX', 'STWX', 'STBUX',
                'STBX', 'STHBRX', 'STHX', 'STHUX']
-    namedct = {'ECIW':310, 'ECOW':438, 'LBZUX':119, 'LBZX':87, 'LHAUX':375, 'LHAX':343, 'LHBR':790,
+    namedct = {'ECIW':310, 'ECOW':438, 'LBZUX':119, 'LBZX':87, 'LHAUX':375, 'LHAX':343, 'LHBRX':790,
                'LHZUX':311, 'LHZX':279, 'LSWX':533, 'STSWX':661, 'LWARX':20, 'LWBRX':534, 'STWBRX':662,
                'LWZUX':55, 'LWZX':23, 'STWUX':183, 'STWX':151, 'STBUX':247, 'STBX':215, 'STHBRX':918,
                'STHX':407, 'STHUX':439}
@@ -1677,7 +1677,7 @@ class ppc_lfdu(ppc_lbz):
 
 class ppc_lfs(ppc_lbz):
     mask_list = [bm_int110000, bm_rt, bm_ra, bm_simm]
-    namestr = ['LFDS']
+    namestr = ['LFS']
 
 class ppc_lfsu(ppc_lbz):
     mask_list = [bm_int110001, bm_rt, bm_ra, bm_simm]
@@ -2001,7 +2001,7 @@ class ppc_twi(ppc_mn):
 class ppc_fabs(ppc_and, ppc_mn):
     mask_list = [bm_int111111, bm_frt, bm_int00000, bm_frb, bm_opc10, bm_rc]
     namestr = ['FABS', 'FCTIWZ', 'FCTIW', 'FMR', 'FNABS', 'FNEG', 'FRSP']
-    namedct = {'FABS':264, 'FCTIWZ':15, 'FCTIW':14, 'FMR':72, 'FMABS':136, 'FNEG':40, 'FRSP':12}
+    namedct = {'FABS':264, 'FCTIWZ':15, 'FCTIW':14, 'FMR':72, 'FNABS':136, 'FNEG':40, 'FRSP':12}
     mask = {21:bm_set_meta("bm_addopc",(bm_set,),{"fbits":namedct.values(), 'l':10})}
     strname = dict((x[1], x[0]) for x in namedct.items())
 
